@@ -202,10 +202,16 @@ def contexts_for(v, rich=True):
     yield mk("setitem", d={"a": 1}, k="k", v=v)
     yield mk("setitem", d={"k": 0, "z": 1}, k="k", v=v)
     yield mk("setitem", d={"a": 1, "k": {"x": 0}, "z": 2}, k="k", v=v)
+    yield mk("parsed", d={"a": 1}, ml=False, k="k", v=v)
+    yield mk("parsed", d={"a": 1}, ml=True, k="k", v=v)
     if rich:
         yield mk("fromdict", d={"p": {"k": v}})
         yield mk("fromdict", d={"p": {"a": 1, "k": v}, "q": 2})
         yield mk("setitem", d={"a": 1, "b": 2}, k="k", v=v)
+        yield mk("parsed", d={}, ml=False, k="k", v=v)
+        yield mk("parsed", d={}, ml=True, k="k", v=v)
+        yield mk("parsed", d={"a": 1, "k": 2}, ml=False, k="k", v=v)
+        yield mk("parsed", d={"b": 7, "k": 2, "a": 1}, ml=True, k="k", v=v)
         for ind, inl in AT_VARIANTS:
             yield mk("binding", ind, inl, k="k", v=v)
             if isinstance(v, list):
@@ -222,9 +228,20 @@ def case_request(c):
         body = ["binding", hx(c["k"]), enc(c["v"])]
     elif ctx == "list":
         body = ["list", enc(c["xs"])]
+    elif ctx == "parsed":
+        body = ["setitemon", enc(c["d"]), "t" if c["ml"] else "f", hx(c["k"]), enc(c["v"])]
     else:
         body = ["setitem", enc(c["d"]), hx(c["k"]), enc(c["v"])]
     return ["value", str(c["indent"]), "t" if c["inline"] else "f", body]
+
+
+def base_text(d: dict, ml: bool) -> str:
+    """Canonical spelling of a set of integer bindings: on one line, or one binding per line."""
+    assert all(isinstance(v, int) and not isinstance(v, bool) and v >= 0 for v in d.values())
+    if ml:
+        return "{\n" + "".join(f"  {k} = {v};\n" for k, v in d.items()) + "}"
+    return "{ " + "".join(f"{k} = {v}; " for k, v in d.items()) + "}"
+
 
 
 def build(c):
@@ -242,6 +259,12 @@ def build(c):
         return Binding(name=c["k"], value=c["v"])
     if ctx == "list":
         return NixList(value=c["xs"])
+    if ctx == "parsed":
+        from nix_manipulator import parse
+
+        src = parse(base_text(c["d"], c["ml"]))
+        src[c["k"]] = c["v"]
+        return src
     s = AttributeSet.from_dict(c["d"])
     s[c["k"]] = c["v"]
     return s
@@ -262,7 +285,7 @@ def expected(c):
 
 def render_real(c):
     obj = build(c)
-    if c["indent"] == 0 and not c["inline"]:
+    if c["context"] == "parsed" or (c["indent"] == 0 and not c["inline"]):
         return obj, obj.rebuild()
     return obj, obj.rebuild(indent=c["indent"], inline=c["inline"])
 
@@ -382,7 +405,7 @@ def check_clauses(c, with_stable=True):
     if not cstread.same_data(got, want):
         return "reads-back", f"Nix reads {got!r}, the value handed in was {want!r}", {"output": text}
     try:
-        again = obj.rebuild(indent=c["indent"], inline=c["inline"])
+        again = obj.rebuild() if c["context"] == "parsed" else obj.rebuild(indent=c["indent"], inline=c["inline"])
         fresh = render_real(c)[1]
     except Exception as exc:  # noqa: BLE001
         return "deterministic", f"second render raised {type(exc).__name__}: {exc}", {"output": text}
@@ -496,7 +519,10 @@ def gen_cases(ctx: fw.Ctx):
             c = mk("binding", k=ctx.rng.choice(KEYS), v=random_value(ctx, d, pools))
         else:
             c = mk("setitem", d=random_dict(ctx, max(1, d - 1), pools), k=ctx.rng.choice(KEYS), v=random_value(ctx, d, pools))
-        if ctx.rng.random() < 0.2:
+        if c["context"] == "setitem" and ctx.rng.random() < 0.3:
+            base = {k: ctx.rng.randint(0, 99) for k in ctx.rng.sample(KEYS, ctx.rng.randint(0, 3))}
+            c = mk("parsed", d=base, ml=ctx.rng.random() < 0.5, k=c["k"], v=c["v"])
+        elif ctx.rng.random() < 0.2:
             c["indent"], c["inline"] = ctx.rng.choice(AT_VARIANTS)
         if emit(c):
             yield c
@@ -506,7 +532,7 @@ def run(ctx: fw.Ctx):
     ctx.extra["rule"] = (
         "values: every scalar representative (13 ints incl. the 64-bit bounds, 19 floats incl. exponent forms, "
         "bools, None, every string up to a length bound over a 17-letter escape alphabet) in every container "
-        "context (from_dict, AttributeSet(values=), Binding, NixList, item assignment; top level, binding value, "
+        "context (from_dict, AttributeSet(values=), Binding, NixList, item assignment on built and on parsed sets; top level, binding value, "
         "list element, nested) and at several (indent, inline); every list/dict nesting shape up to a depth "
         "bound; random nested values; non-trivial = a non-empty container or a string with a character that "
         "needs escaping"
@@ -539,7 +565,7 @@ def run(ctx: fw.Ctx):
             impl.append(["err", exc_class(exc)])
     replies = ctx.driver.ask_many(reqs + [["readdata", hx(t)] for t in SPEC_CORPUS])
     ctx.corr_checked = len(reqs)
-    bad = spec_bad = 0
+    bad = spec_bad = flag_bad = 0
     for c, rq, im, got in zip(cases, reqs, impl, replies):
         model_text = unhx(got[1]) if got and got[0] == "ok" else None
         if im[0] != "ok" or model_text != im[1]:
@@ -548,6 +574,14 @@ def run(ctx: fw.Ctx):
                 ctx.tie_break("correspondence", f"rebuild of {c['context']} disagrees with the model on {c!r}",
                               request=rq, implementation=im, model=model_text)
             continue
+        # the Lean side condition is the harness's classification: in the domain; readable = avoids = no culprit
+        flags = [x == "t" for x in got[3:6]]
+        want_ok = not case_culprits(c)
+        if flags != [True, want_ok, want_ok]:
+            flag_bad += 1
+            if flag_bad <= 3:
+                ctx.tie_break("spec", f"Lean (inDomain, readable, avoids) = {flags} but the harness finds culprits "
+                              f"{sorted(case_culprits(c))} in {c!r}")
         # SPEC validation: whatever the Lean reader reads, the tree-sitter reader reads too
         if got[2] != "none":
             lean_val = dec_data(got[2][1])
@@ -578,6 +612,7 @@ def run(ctx: fw.Ctx):
     ctx.count("correspondence_disagreements", bad)
     ctx.count("spec_corpus", len(SPEC_CORPUS))
     ctx.count("spec_disagreements", spec_bad)
+    ctx.count("side_condition_disagreements", flag_bad)
 
     # ---------------- observation on the implementation; Lean's verdict must match where it says `some`
     for c, got in zip(cases, replies):
